@@ -205,7 +205,7 @@ func (i *interpreter) needFloat(v value, what string) float64 {
 	case float32:
 		return float64(x)
 	case *FV:
-		if f, ok := i.fConcrete(x); ok {
+		if f, ok := i.fApprox(x); ok {
 			return f
 		}
 	}
@@ -457,7 +457,7 @@ func (i *interpreter) toNative(v value) (interface{}, bool) {
 		}
 		return nil, false
 	case *FV:
-		if f, ok := i.fConcrete(x); ok {
+		if f, ok := i.fApprox(x); ok {
 			return f, true
 		}
 		return nil, false
